@@ -122,3 +122,56 @@ func vListIn(seg *Segment) List {
 	vAssume(invList(l))
 	return l
 }
+
+// vSmallSize picks one of nine concrete element sizes (0..2 data words x 0..2 pointers); each is a
+// separate path with constant strides, which keeps word-count products linear.
+func vSmallSize() ObjectSize {
+	var sz ObjectSize
+	switch vNondetU8() % 3 {
+	case 1:
+		sz.DataSize = 8
+	case 2:
+		sz.DataSize = 16
+	}
+	switch vNondetU8() % 3 {
+	case 1:
+		sz.PointerCount = 1
+	case 2:
+		sz.PointerCount = 2
+	}
+	return sz
+}
+
+// vListInTagged is vListIn with two additions for the write side: composite lists have one of the
+// nine small element sizes, and the tag word in front of the elements encodes (length, size) as the
+// spec requires (part of the representation invariant of a composite list).
+func vListInTagged(seg *Segment) List {
+	l := List{seg: seg, off: address(vNondetU32()), length: int32(vNondetU32()), depthLimit: uint(vNondetU64())}
+	vAssume(l.off%8 == 0)
+	switch vNondetU8() {
+	case 0: // composite
+		l.flags = isCompositeList
+		l.size = vSmallSize()
+		vAssume(l.off >= 8)
+	case 1:
+		l.flags = isBitList
+	case 2:
+		l.size.DataSize = 1
+	case 3:
+		l.size.DataSize = 2
+	case 4:
+		l.size.DataSize = 4
+	case 5:
+		l.size.DataSize = 8
+	case 6:
+		l.size.PointerCount = 1
+	default:
+		// void
+	}
+	vAssume(invList(l))
+	if l.flags&isCompositeList != 0 {
+		tag := refLoad64(seg.data, int64(l.off)-8)
+		vAssume(refKind(tag) == 0 && refOffsetWords(tag) == int64(l.length) && 8*refDataWords(tag) == uint64(l.size.DataSize) && refPtrWords(tag) == uint64(l.size.PointerCount))
+	}
+	return l
+}
